@@ -118,6 +118,7 @@ def default_targets(prop: str):
     if n in (11, 12, 13, 16): t += ['Model/Sensors.vo', 'Gen/TablesGen.vo']
     if n in (14, 15): t += ['Model/ETCaps.vo']
     if n in (17, 19): t += ['Model/Sensors.vo', 'Model/Settings.vo', 'Gen/SettingsGen.vo']
+    if n == 19: t += ['Proofs/ModesProofs.vo']
     return t
 
 
